@@ -33,6 +33,9 @@ def cases(tier, seed):
             out.append(dict(kind="sym", dtype=dt, qtype=q, source="activation"))
         for q in wq.QTB:
             out.append(dict(kind="affine", dtype=dt, qtype=q))
+    # histories: the default optimizers are process-wide objects; a scale must not depend on what was quantized before
+    for q in ALLQ:
+        out.append(dict(kind="history", qtype=q))
     shapes = _shapes(tier)
     n = 5 if tier == "quick" else 10
     for dt in ("float16", "float32") if tier == "quick" else ("float16", "bfloat16", "float32"):
@@ -93,6 +96,33 @@ def sym_oracle(w, qtype_name, axis, source):
     return probs, keys
 
 
+HIST_ORDERS = [("float16", "float32"), ("float32", "float16"), ("float16", "bfloat16"), ("bfloat16", "float32")]
+
+
+def _history_terms(qtype_name, first, second, res=None):
+    """scale and zero-point terms of a symbolic weight of dtype `second`, optionally after a concrete call in dtype `first`;
+    returned as strings (hash-consed terms do not survive a process boundary)"""
+    from symt import api
+    from symt.api import Session
+
+    from optimum.quanto import quantize_weight
+
+    q_t = wq.qt(qtype_name)
+    w2 = torch.tensor([[0.3, -0.2], [0.11, 0.4]], dtype=api.DT[second])
+    with Session(res) as m:
+        if first is not None:
+            for ax in (0, -1):
+                quantize_weight(torch.tensor([[0.7, -0.1], [0.2, 0.9]], dtype=api.DT[first]), q_t, ax).dequantize()
+        m.symbolic(w2, "w")
+        out = []
+        for ax in (0, -1):
+            q = quantize_weight(w2, q_t, ax)
+            out += [t.pretty(14) for t in m.read(q._scale).reshape(-1)]
+            if getattr(q, "_zeropoint", None) is not None:
+                out += [t.pretty(14) for t in m.read(q._zeropoint).reshape(-1)]
+    return out
+
+
 def run_case(case, res):
     import numpy as np
     import z3
@@ -106,6 +136,18 @@ def run_case(case, res):
 
     from .c02 import specialise
 
+    if case["kind"] == "history":
+        for first, second in HIST_ORDERS:
+            # both runs start from this process' state (no quantization done yet): one with a history, one without
+            fresh = api.fresh_fork(lambda: _history_terms(case["qtype"], None, second))
+            after = api.fresh_fork(lambda: _history_terms(case["qtype"], first, second))
+            same = fresh == after
+            res.query("scale-independent-of-earlier-calls", "ALG", "unsat" if same else "sat", 0.0, sub=f"{first} then {second}", nvars=4)
+            if not same:
+                d2 = api.DT[second]
+                for vals in ([[0.0, 0.0], [1e-6, 2e-6]], [[3e-7, -1e-7], [5e-6, 2e-6]], [[0.3, -0.2], [0.11, 0.4]], [[1e-4, 2e-5], [60000.0, 3.0]]):
+                    res.candidate("history", "ALG", dict(kind="history", qtype=case["qtype"], first=first, second=second, w=api.enc_tensor(torch.tensor(vals, dtype=d2)), source="history"), exact=False, cap=8)
+        return
     dt = api.DT[case["dtype"]]
     q_t = wq.qt(case["qtype"])
     f = tm.FMT[dt]
@@ -311,6 +353,22 @@ def replay(rec):
     w = api.dec_tensor(inp["w"])
     q_t = wq.qt(inp["qtype"])
     src = inp["source"]
+    if src == "history":
+        # replays run in a fresh process: reproduce the history, then compare with what a process without history computes
+        def run(first):
+            if first is not None:
+                for ax in (0, -1):
+                    quantize_weight(torch.tensor([[0.7, -0.1], [0.2, 0.9]], dtype=api.DT[first]), q_t, ax).dequantize()
+            out = []
+            for ax in (0, -1):
+                q = quantize_weight(w, q_t, ax)
+                out.append((q._scale.double().reshape(-1).tolist(), q.dequantize().double().reshape(-1).tolist()))
+            return out
+
+        fresh = api.fresh_fork(lambda: run(None))
+        after = api.fresh_fork(lambda: run(inp["first"]))
+        bad = repr(fresh) != repr(after)
+        return bad, f"quantize_weight({w.tolist()}, {inp['qtype']}) after a {inp['first']} weight was quantized in the same process gives (scale, dequantized) {after}, a process without that history gives {fresh}", None
     try:
         if src in ("weight", "activation"):
             probs, keys = sym_oracle(w, inp["qtype"], inp["axis"], src)
